@@ -20,12 +20,16 @@ type leaf05 struct {
 	keyed                bool // last element carries key n=v
 	val                  int64
 	atomic               bool // an atomic container stored at path (leaves m, n below it)
+	// keys2: the last element is a list entry with two keys whose VALUES sort
+	// the other way round than their names: identifier=z, name=a (index: z, a)
+	keys2 bool
 }
 
 var content05 = []leaf05{
-	{"t1", "", "a/b", false, 1, false}, {"t1", "", "a/c", false, 2, false}, {"t1", "", "b", false, 3, false}, {"t1", "o", "a/b", false, 4, false},
-	{"t1", "", "a/k", true, 5, false}, {"t1", "", "c/a/b", false, 6, false}, {"t2", "", "a/b", false, 7, false}, {"t2", "o", "b", false, 8, false},
-	{"t1", "", "c/at", false, 9, true},
+	{"t1", "", "a/b", false, 1, false, false}, {"t1", "", "a/c", false, 2, false, false}, {"t1", "", "b", false, 3, false, false}, {"t1", "o", "a/b", false, 4, false, false},
+	{"t1", "", "a/k", true, 5, false, false}, {"t1", "", "c/a/b", false, 6, false, false}, {"t2", "", "a/b", false, 7, false, false}, {"t2", "o", "b", false, 8, false, false},
+	{"t1", "", "c/at", false, 9, true, false},
+	{"t1", "", "c/p", false, 10, false, true},
 }
 
 func (l leaf05) index() []string {
@@ -36,6 +40,9 @@ func (l leaf05) index() []string {
 	out = append(out, strings.Split(l.path, "/")...)
 	if l.keyed {
 		out = append(out, "v")
+	}
+	if l.keys2 {
+		out = append(out, "z", "a")
 	}
 	return out
 }
@@ -110,7 +117,7 @@ func (s sub05) want() (map[string]int64, bool) {
 
 func configs05(tier string) []xplore.Config {
 	var out []xplore.Config
-	elems := []string{"", "a", "b", "c", "*", "a/b", "a/*", "*/b", "*/*", "c/a", "a/k", "a/k/v", "a/k/*", "*/a/b", "c/at", "c/at/*", "c/at/m", "c/*"}
+	elems := []string{"", "a", "b", "c", "*", "a/b", "a/*", "*/b", "*/*", "c/a", "a/k", "a/k/v", "a/k/*", "*/a/b", "c/at", "c/at/*", "c/at/m", "c/*", "c/p", "c/p/z/a", "c/p/*/a", "c/p/z/*", "c/p/a/*"}
 	if tier == "thorough" {
 		elems = append(elems, "a/b/c", "*/a/b", "c/*/b", "*/*/*", "a/*/*", "c/a/b")
 	}
@@ -176,6 +183,9 @@ func run05(cfg xplore.Config, ch vrt.Chooser, trace bool) (xplore.Outcome, *vrt.
 			p := mkPath(l.path)
 			if l.keyed {
 				p.Elem[len(p.Elem)-1].Key = map[string]string{"n": "v"}
+			}
+			if l.keys2 {
+				p.Elem[len(p.Elem)-1].Key = map[string]string{"identifier": "z", "name": "a"}
 			}
 			if l.atomic {
 				pre := mkPath(l.path)
